@@ -13,7 +13,7 @@ theorem step_eq (cfg : Cfg) (s s' : St) (c : Nat) (e : Env) (hs : step cfg s c e
 set_option hygiene false in
 macro "local_cases" : tactic => `(tactic| (
   generalize hpc : s.pcs c = pc at hts
-  cases pc <;> simp only [tstep, fixed, reduceCtorEq, or_false, false_or, or_self, ↓reduceIte, or_true, true_or, Bool.false_eq_true] at hts <;> (try contradiction)
+  cases pc <;> simp only [tstep, fixed, reduceCtorEq, or_false, false_or, or_self, ↓reduceIte, or_true, true_or, Bool.false_eq_true, Bool.false_and] at hts <;> (try contradiction)
   all_goals (
     repeat' (split at hts)
     all_goals (try contradiction)
@@ -229,7 +229,7 @@ theorem map_mono_step (s s' : St) (c' : Nat) (e : Env) (c : Cid) (k : Key) (v : 
   obtain ⟨sh', pc', hts, rfl⟩ := step_eq fixed s s' c' e hs
   have h4 := hv.v4 c
   generalize hpc : s.pcs c' = pc at hts
-  cases e <;> cases pc <;> simp only [tstep, fixed, reduceCtorEq, or_false, false_or, or_self, ↓reduceIte, or_true, true_or, Bool.false_eq_true] at hts <;> (try contradiction)
+  cases e <;> cases pc <;> simp only [tstep, fixed, reduceCtorEq, or_false, false_or, or_self, ↓reduceIte, or_true, true_or, Bool.false_eq_true, Bool.false_and] at hts <;> (try contradiction)
   all_goals (
     repeat' (split at hts)
     all_goals (try contradiction)
